@@ -5,4 +5,5 @@ INVARIANT JudgeSound
 INVARIANT NoPhraseAfterMainRefusal
 INVARIANT AtMostOnePrint
 PROPERTY ExitsWhenMessagePending
+VIEW ViewNoHist
 CHECK_DEADLOCK FALSE
